@@ -1,0 +1,12 @@
+//go:build verif
+
+// Contracts for the bmverif deductive checker (comment-only; compiled only under -tags verif).
+
+package bmmeta
+
+//@ props C14
+
+// metadata lookup: a function of the receiver's metadata only (map read; not verified)
+//@ func (bm *BasmMeta) GetMeta(key string) string
+//@   pure
+//@   trusted
